@@ -124,6 +124,7 @@ def trait_signature_check():
     b = sigs(spec, True)
     b.pop("view", None)
     b.pop("may_open", None)
+    b.pop("inv", None)
     if a != b:
         diff = {k: (a.get(k), b.get(k)) for k in set(a) | set(b) if a.get(k) != b.get(k)}
         raise Inconclusive("storage trait signatures in /repo differ from contracts/storage_trait.rs: %r" % diff)
